@@ -264,8 +264,9 @@ impl<'a, const BITS: usize, const LIMBS: usize> FromSql<'a> for Uint<BITS, LIMBS
                 if raw.len() < 8 {
                     return Err(Box::new(FromSqlError::ParseError(ty.clone())));
                 }
-                let digits = i16::from_be_bytes(raw[0..2].try_into()?);
-                let exponent = i16::from_be_bytes(raw[2..4].try_into()?);
+                // Widened so that `exponent + 1` can not overflow.
+                let digits = i32::from(i16::from_be_bytes(raw[0..2].try_into()?));
+                let exponent = i32::from(i16::from_be_bytes(raw[2..4].try_into()?));
                 let sign = i16::from_be_bytes(raw[4..6].try_into()?);
                 let dscale = i16::from_be_bytes(raw[6..8].try_into()?);
                 let raw = &raw[8..];
